@@ -67,6 +67,14 @@ var RespShapes = []RespShape{
 	{`{"code":200,"message":""}`, `{"header":{},"body":1}`, "invalid"},
 	{`{"code":400,"message":"bad"}`, ``, "none"},
 	{`{"code":500,"message":"err"}`, ``, "none"},
+	// the published output schema, read closely: "header" (an object) is required, "body" if present is an
+	// object, further properties are allowed, property names are case-sensitive
+	{`{"code":200,"message":""}`, `{"header":{},"body":null}`, "invalid"},
+	{`{"code":200,"message":""}`, `{"Header":{}}`, "invalid"},
+	{`{"code":200,"message":""}`, `{"header":null}`, "invalid"},
+	{`{"code":200,"message":""}`, `{"header":{},"body":"x"}`, "invalid"},
+	{`{"code":200,"message":""}`, `{"header":{},"Body":"x"}`, "valid"},
+	{`{"code":200,"message":""}`, `{"header":{},"body":{},"extra":[1]}`, "valid"},
 }
 
 // ModOnlyShapes: answers only a module service can give (a message with them fails stateless validation):
